@@ -76,10 +76,10 @@ Theorem C04_first_access_exact :
   forall buf, 0 < buf ->
   forall data sc cl0 pre r rq k,
     forallb passive pre = true ->
-    let w := fst (run buf (world_init data sc cl0) pre) in
+    let w := fst (run buf None (world_init data sc cl0) pre) in
     nth_error (w_reqs w) r = Some rq ->
     exists w',
-      step buf w (OBody r k) = (w', OutBytes (take_opt k (firstn (Z.to_nat (r_cl rq)) data)))
+      step buf None w (OBody r k) = (w', OutBytes (take_opt k (firstn (Z.to_nat (r_cl rq)) data)))
       /\ cached w' r (firstn (Z.to_nat (r_cl rq)) data)
       /\ exists s', w_streams w' = [s']
            /\ rest s' = skipn (Z.to_nat (r_cl rq)) data
@@ -93,27 +93,46 @@ Print Assumptions C04_first_access_exact.
    family — further accesses and partial reads on any object, copies, rewrites of
    Content-Length / Content-Type / any other header on any object, new input
    streams on OTHER objects — and the access itself changes nothing (in
-   particular it reads no stream). *)
+   particular it reads no stream).  Holds under any configured size limit. *)
 Theorem C04_cached_body_stable :
-  forall buf, 0 < buf ->
-  forall w r c ops k,
+  forall buf maxb w r c ops k,
     cached w r c ->
     forallb (fun o => negb (sets_input r o)) ops = true ->
-    let w' := fst (run buf w ops) in
-    step buf w' (OBody r k) = (w', OutBytes (take_opt k c)).
+    let w' := fst (run buf maxb w ops) in
+    step buf maxb w' (OBody r k) = (w', OutBytes (take_opt k c)).
 Proof. exact stable_lemma. Qed.
 Print Assumptions C04_cached_body_stable.
 
 (* A copy of a request that already presents body c presents the same c and
    touches no stream. *)
 Theorem C04_copy_presents_same_body :
-  forall buf, 0 < buf ->
-  forall w r c,
+  forall buf maxb w r c,
     cached w r c ->
-    exists w', step buf w (OCopy r) = (w', OutNew (length (w_reqs w)))
+    exists w', step buf maxb w (OCopy r) = (w', OutNew (length (w_reqs w)))
                /\ cached w' (length (w_reqs w)) c /\ w_streams w' = w_streams w.
 Proof. exact cached_copy. Qed.
 Print Assumptions C04_copy_presents_same_body.
+
+(* A failed read is final (defect F43, repaired in /repo b382a2c: before the repair the
+   second access started a fresh read from the partly consumed stream and ran past
+   Content-Length).  The access that reports the refusal leaves the request marked, and a
+   marked request answers every later access — after any further operations on the whole
+   family that do not assign a new wsgi.input to it, and likewise on copies taken afterwards —
+   with the same refusal and WITHOUT touching any stream (the world is returned unchanged). *)
+Theorem C04_refusal_marks_request :
+  forall buf maxb w r k w',
+    step buf maxb w (OBody r k) = (w', OutErr) -> failed w' r.
+Proof. exact refusal_marks. Qed.
+Print Assumptions C04_refusal_marks_request.
+
+Theorem C04_failed_read_is_final :
+  forall buf maxb w r ops k,
+    failed w r ->
+    forallb (fun o => negb (sets_input r o)) ops = true ->
+    let w' := fst (run buf maxb w ops) in
+    step buf maxb w' (OBody r k) = (w', OutErr).
+Proof. exact failed_final_lemma. Qed.
+Print Assumptions C04_failed_read_is_final.
 
 (* The model's header-rewrite steps (OSetCL, OSetOther) keep the buffered body.
    That is what the code's own invalidation table says — the table is extracted
@@ -138,7 +157,7 @@ Print Assumptions C04_body_view_is_cache_key.
 Theorem C04_copy_before_first_access_shares_stream_observation :
   exists data sc cl buf,
     0 < buf /\
-    snd (run buf (world_init data sc cl) [OCopy 0; OBody 0 None; OBody 1 None])
+    snd (run buf None (world_init data sc cl) [OCopy 0; OBody 0 None; OBody 1 None])
     = [OutNew 1; OutBytes (firstn (Z.to_nat cl) data);
        OutBytes (firstn (Z.to_nat cl) (skipn (Z.to_nat cl) data))]
     /\ firstn (Z.to_nat cl) (skipn (Z.to_nat cl) data) <> firstn (Z.to_nat cl) data.
